@@ -7,6 +7,7 @@ from ..fastdump import iter_dump
 from ..tlaparse import to_json
 from ..tlc import MachineryError
 from . import C05
+from .C17 import annotate_type
 
 CFG = """SPECIFICATION SpecC11
 CONSTANTS Depth = %d
@@ -22,10 +23,20 @@ INVARIANT CmpAgrees
 PLAIN = {'int', 'nat', 'string', 'bytes', 'bool', 'unit', 'mutez'}
 
 
-def cause(t, v, mode):
-    """input class of a disagreement: the timestamp zones outside the four-digit years if the rendering is readable, else the type class"""
-    z = sorted(md.ts_zones(t, v) - {'text'}) if mode == 'readable' else []
-    return 'timestamp-' + '+'.join(z) if z else md.type_class(t)
+RAISE_ZONES = {'year0', 'before-year0', 'year>=10000'}      # no datetime exists there; 'year1-999' has one but no four-digit notation
+
+
+def cause(t, v, mode, raised=False):
+    """input class of a disagreement: in readable mode the zones of the timestamps outside the four-digit years (for an exception: outside the
+    years 1..9999) that the value contains, otherwise the type class"""
+    z = md.ts_zones(t, v) - {'text'} if mode == 'readable' else set()
+    if raised and z & RAISE_ZONES:
+        z &= RAISE_ZONES
+    return 'timestamp-' + '+'.join(sorted(z)) if z else md.type_class(t)
+
+
+def key_note(t):
+    return ':unit-key' if t[0] in ('set', 'map') and md.has(t[1], 'unit') else ''
 
 
 def check_case(ctx, t, v, nodes, names):
@@ -40,7 +51,7 @@ def check_case(ctx, t, v, nodes, names):
         x = T.from_micheline_value(mj[0])
         px = md.project(t, x)
     except Exception as e:   # noqa
-        ctx.mismatch('C11:from:reference-readable:raises:%s:%s' % (md.type_class(t), type(e).__name__),
+        ctx.mismatch('C11:from:reference-readable:raises:%s%s:%s' % (md.type_class(t), key_note(t), type(e).__name__),
                      'from_micheline_value of the readable notation raised %r: %s' % (e, what), case)
         return False
     ok = True
@@ -53,7 +64,7 @@ def check_case(ctx, t, v, nodes, names):
         try:
             raw = x.to_micheline_value(mode=mode)
         except Exception as e:   # noqa
-            ctx.mismatch('C11:to:%s:raises:%s' % (mode, c), 'to_micheline_value(mode=%r) raised %r: %s' % (mode, e, what), case)
+            ctx.mismatch('C11:to:%s:raises:%s' % (mode, cause(t, v, mode, True)), 'to_micheline_value(mode=%r) raised %r: %s' % (mode, e, what), case)
             ok = False
             continue
         got = md.canon(raw)
@@ -72,6 +83,20 @@ def check_case(ctx, t, v, nodes, names):
             ctx.mismatch('C11:roundtrip:%s:value:%s' % (mode, c),
                          'round trip through mode %r gives %r (== original: %s), expected %r (type %s)' % (mode, py, y == x, want, json.dumps(tj)), case)
             ok = False
+    # the same round trip at the type carrying annotations (the rendering itself is compared at the plain type only)
+    for scheme in (md.SCHEMES if ok and md.has(t, 'pair') else []):
+        atj = annotate_type(tj, scheme)
+        for mode in md.MODES:
+            ctx.count((t, v, mode, scheme), nontrivial=True)
+            try:
+                A = md.mtype(atj)
+                py = md.project(t, A.from_micheline_value(A.from_micheline_value(mj[0]).to_micheline_value(mode=mode)))
+            except Exception as e:   # noqa
+                py = ('raised', repr(e))
+            if py != want:
+                ctx.mismatch('C11:roundtrip:annotated:%s:%s:%s' % (scheme, mode, cause(t, v, mode)),
+                             'round trip through mode %r at the annotated type %s gives %r, expected %r' % (mode, json.dumps(atj), py, want), case)
+                ok = False
     return ok
 
 
@@ -85,7 +110,7 @@ def run(ctx):
                 'sets and maps sorted by the model order). Leg A (TLC): FromM(ToM(mode)) = value for the three modes, the stepwise comb folding of the reference equals the declarative comb rule, '
                 'every comb notation parses, timestamp text exactly inside years 1000..9999, the model order agrees with MichSem. Leg B: for every <type, value> the pytezos value is built from the '
                 'readable notation; to_micheline_value(mode) must equal the model node and from_micheline_value of it must give back the value (read through its optimized rendering by an '
-                'independent reader, and by Python equality). non-trivial = type other than int/nat/string/bytes/bool/unit/mutez'
+                'independent reader, and by Python equality); the round trip is repeated at the type annotated by each of 5 annotation schemes. non-trivial = type other than int/nat/string/bytes/bool/unit/mutez'
                 % ('12 two-constructor types' if q else 'about 150 two-constructor types'))
     ctx.assumptions = ['readable timestamps of the years 0000..0999: the int node (property statement) and the zero-padded RFC 3339 text (what the reference prints) are both accepted',
                        '64-byte signatures are written in the generic `sig` notation, 96-byte ones as BLsig (the notation Tezos prints for a signature read from bytes)',
@@ -110,7 +135,7 @@ def run(ctx):
             ctx.sample({'type': terms.type_json(t), 'readable': md.node_json(nodes[0], names), 'optimized': md.node_json(nodes[1], names),
                         'legacy_optimized': md.node_json(nodes[2], names)}, limit=6)
     need = {'comb3', 'comb4', 'comb5', 'comb6', 'pair', 'option', 'or', 'list', 'set', 'map', 'timestamp', 'address', 'key_hash', 'key', 'signature', 'chain_id', 'lambda'}
-    if not pcs.get('done') or len({pcs.get(k) for k in ('render', 'rendered', 'done')}) != 1 or not need <= seen_types or zones != {'text', 'year0-999', 'before-year0', 'year>=10000'}:
+    if not pcs.get('done') or len({pcs.get(k) for k in ('render', 'rendered', 'done')}) != 1 or not need <= seen_types or zones != {'text', 'year0', 'year1-999', 'before-year0', 'year>=10000'}:
         raise MachineryError('vacuity: states per phase %s, type classes %s, timestamp zones %s' % (pcs, sorted(seen_types), sorted(zones)))
     ctx.exhaustive = True
 
